@@ -112,7 +112,7 @@ func cmdCheck(args []string) int {
 	s := NewSched(timeout)
 	s.budget = 900 * time.Second
 	if tier == "thorough" {
-		s.budget = 3 * time.Hour
+		s.budget = 75 * time.Minute
 		s.cross = true
 		s.crossMax = 150
 	}
